@@ -17,22 +17,22 @@ import JS.Proofs.Ref
 namespace JS.Props.C02
 open JS
 
-/-- **A reference object is its target.** For the four drafts: with a (string) `$ref` present the
+/-- **A reference object is its target.** For the four drafts: with a (string) `$ref` present —
+    whatever else is written next to it, an id included: nothing is pushed for the object itself — the
     result of evaluating the schema object is exactly: resolve the reference (an exception there
     ends the run before anything is pushed), evaluate the designated schema with the resolved URL
     as scope, pop. The errors are the target's errors with nothing added to their paths. -/
 theorem ref_is_target (env : Env) (impl : FmtImpl) (d : Draft) (fc : Option FormatChecker) (rec : Rec)
     (kvs : List (Str × Json)) (r : Str) (inst : Json) (b : Option Nat) (st : RState)
-    (href : Json.lookup (skey "$ref") kvs = some (.str r))
-    (hid : Json.lookup d.idKey kvs = none) :
+    (href : Json.lookup (skey "$ref") kvs = some (.str r)) :
     evalStep env impl (d.cfg fc) rec inst (.obj kvs) b st =
       (match resolve env r st with
        | (.ok (url, target), st1) =>
            mapErrs (stamp (skey "$ref") (.str r) inst (.obj kvs)) (withScope env url (rec inst target)) b st1
        | (.raise e, st1) => ⟨[], .raised e, st1⟩
        | (.miss q, st1) => ⟨[], .miss q, st1⟩) := by
-  have hid' : Json.lookup (d.cfg fc).idKey kvs = none := hid
-  rw [evalStep_obj_noId env impl (d.cfg fc) rec kvs inst hid',
+  have hr : Json.hasKey (skey "$ref") kvs = true := by unfold Json.hasKey; rw [href]; rfl
+  rw [evalStep_obj_noId env impl (d.cfg fc) rec kvs inst (.inr hr),
     schemaBody_ref env impl d fc rec kvs r inst href]
   dsimp only [mapErrs, kwRef]
   rcases resolve env r st with ⟨⟨url, target⟩ | e | q, st1⟩ <;> rfl
@@ -150,25 +150,26 @@ theorem memoBacked_hist (env : Env) (impl : FmtImpl) (cfg : Cfg) (fuel : Nat) (s
     MemoBacked env (runHist env impl cfg fuel schema st ops).2 :=
   keeps_runHist (memoBackedInv env) impl cfg fuel schema ops st hs
 
-/-- **The base URI in effect.** Evaluating a schema object with an id pushes `urljoin(top, id)`
+/-- **The base URI in effect.** Evaluating a schema object with an id (and no `$ref` key) pushes `urljoin(top, id)`
     for exactly the duration of that object's evaluation: every keyword of the object (and, through
     them, every subschema) runs with that scope on top of the unchanged stack, and afterwards the
     stack is what it was. -/
 theorem id_scopes_subschemas (env : Env) (impl : FmtImpl) (cfg : Cfg) (rec : Rec)
     (kvs : List (Str × Json)) (ident u : Str) (inst : Json) (b : Option Nat) (st : RState)
     (hid : Json.lookup cfg.idKey kvs = some (.str ident)) (hne : ident ≠ [])
+    (hnr : Json.hasKey (skey "$ref") kvs = false)
     (hj : env.urljoin st.top ident = some u) :
     evalStep env impl cfg rec inst (.obj kvs) b st =
       (match schemaBody env impl cfg rec inst kvs b { st with scopes := u :: st.scopes } with
        | ⟨es, s, st'⟩ => ⟨es, s, { st' with scopes := st'.scopes.tail }⟩) := by
-  rw [evalStep_obj_id env impl cfg rec kvs ident inst hid hne]
+  rw [evalStep_obj_id env impl cfg rec kvs ident inst hid hne hnr]
   unfold withScope
   simp only [hj]
 
-/-- a schema object without id evaluates its keywords in the enclosing scope -/
+/-- a schema object without id — or with a `$ref` key — evaluates its keywords in the enclosing scope -/
 theorem no_id_same_scope (env : Env) (impl : FmtImpl) (cfg : Cfg) (rec : Rec)
     (kvs : List (Str × Json)) (inst : Json) (b : Option Nat) (st : RState)
-    (hid : Json.lookup cfg.idKey kvs = none) :
+    (hid : Json.lookup cfg.idKey kvs = none ∨ Json.hasKey (skey "$ref") kvs = true) :
     evalStep env impl cfg rec inst (.obj kvs) b st = schemaBody env impl cfg rec inst kvs b st := by
   rw [evalStep_obj_noId env impl cfg rec kvs inst hid]
 
